@@ -574,11 +574,11 @@ def signature(prog, k, st, o, kind):
     if m in ("join", "joinOn"):
         return "C10/join-right-side-names-lost"
     if m == "select":
-        if any(a[0] == "str" and _is_ticked(a[1]) for a in op[1]):
-            return "C10/select-backticked-string-keeps-backticks"
         ks = [key(attr(a[2] if a[0] == "alias" else a[1])) for a in op[1]]
         if len(set(ks)) != len(ks):
             return "C10/select-same-column-twice"
+        if any(a[0] == "str" and _is_ticked(a[1]) for a in op[1]) and any("`" in x for v in VIEWS for x in (o.get(v) or [])):
+            return "C10/select-backticked-string-keeps-backticks"
     return f"C10/{m}:" + "+".join(bad)
 
 
